@@ -3,7 +3,7 @@
    (with the freshness of rewritten URLs) zero changes, for any number of links and images at any
    position of any document. *)
 From Coq Require Import List NArith Arith Bool Lia String.
-From WMD Require Import Gen.Tables Lib.Str Lib.PyChars Lib.Escape Lib.Difflib Model.RenderTokens Model.RenderMerge
+From WMD Require Import Gen.Tables Lib.Str Lib.PyChars Lib.Escape Lib.Difflib Model.RenderTokens Model.RenderMerge Model.RenderLabelled
      Proofs.DifflibProofs Proofs.DifflibSound Proofs.UrlRuleProofs Proofs.TokenProofs Proofs.RenderProofs.
 Import ListNotations.
 Close Scope N_scope.
